@@ -5,11 +5,11 @@
 #include <functional>
 #include <sqlite3.h>
 
-// Walk of the failure index: every k up to a dense prefix (8 in the quick tier, 200 in the thorough tier), then strides that grow
+// Walk of the failure index: every k up to a dense prefix (24 in the quick tier, 200 in the thorough tier), then strides that grow
 // with k, so that the number of attempts per call stays bounded (a call with thousands of allocations is re-executed once per
 // attempt); which sites beyond the prefix are hit varies with the seed.
 static inline long next_k(long k, bool quick, Rng &skip) {
-    if (quick) return k <= 8 ? k + 1 : k + 1 + (long) skip.below((uint64_t) std::max<long>(5, k / 12));
+    if (quick) return k <= 24 ? k + 1 : k + 1 + (long) skip.below((uint64_t) std::max<long>(4, k / 12));
     return k <= 200 ? k + 1 : k + 1 + (long) skip.below((uint64_t) std::max<long>(2, k / 60));
 }
 struct FaultEnum {
